@@ -83,6 +83,13 @@ def main ():
     warnings.simplefilter ('ignore')
     import numpy as np
     np.seterr (all = 'ignore')
+    cov = None
+    if os.environ.get ('PMV_COVER'):
+        # reach measurement (tools/reach.sh): which lines of the repository the workloads execute at all
+        import coverage
+        cov = coverage.Coverage ( data_file = os.environ ['PMV_COVER'], data_suffix = True
+                                , include = [os.path.join (os.environ.get ('PMV_REPO', '/repo'), 'mininec', '*.py')])
+        cov.start ()
     common.repo ()
     instrument.install ()      # also routes numpy floating-point errors to the recorder
     mod = load (pid)
@@ -105,6 +112,9 @@ def main ():
             , anchors = instrument.anchor_report (getattr (mod, 'ANCHORS', []))
             )
         f.write (json.dumps (common.jsonable (trailer)) + '\n')
+    if cov is not None:
+        cov.stop ()
+        cov.save ()
 # end def main
 
 if __name__ == '__main__':
